@@ -383,9 +383,25 @@ def expand(prog: 'object') -> list[str]:
                                 hexpr = _as_expr(body)
                                 if hexpr is not None:
                                     b = _bind(sub, h.node, is_m, recv)
-                                    if b is None or not all(_simple(v) or _count_uses(hexpr, p) <= 1 for p, v in b.items()):
+                                    if b is None:
+                                        continue
+                                    # an argument that is not a plain name / attribute and is used more than once in the
+                                    # helper's expression is evaluated once, into a fresh local, before the statement
+                                    pre_st: list[ast.stmt] = []
+                                    for p_, v_ in list(b.items()):
+                                        if not _simple(v_) and _count_uses(hexpr, p_) > 1:
+                                            counter += 1
+                                            tmpn = f'{p_}__{h.name}{counter}'
+                                            pre_st.append(ast.copy_location(ast.Assign(targets=[ast.Name(id=tmpn, ctx=ast.Store())], value=v_, lineno=st.lineno), st))
+                                            b[p_] = ast.copy_location(ast.Name(id=tmpn, ctx=ast.Load()), v_)
+                                    if pre_st and not isinstance(st, (ast.Assign, ast.AugAssign, ast.AnnAssign, ast.Expr, ast.Return, ast.If, ast.Assert)):
                                         continue
                                     expr = _Subst(b, {}, h.module, sub).visit(copy.deepcopy(hexpr))
+                                    if pre_st:
+                                        for ps_ in pre_st:
+                                            ast.fix_missing_locations(ps_)
+                                        blk[i:i] = pre_st
+                                        i += len(pre_st)
                                     ast.fix_missing_locations(expr)
                                     _replace_child(st, sub, expr)
                                     touched[caller.qualname] = caller
